@@ -178,12 +178,12 @@ func (sc *Scope) call(e ECall) Val {
 		// typeis(x, T): dynamic type of interface value x is T
 		argN(2)
 		v := sc.eval(e.Args[0])
-		ty, _ := sc.typeByName(e.Args[1].String())
+		ty, _ := sc.typeByName(typeArgText(e.Args[1]))
 		return boolVal(eq(sx("itag", v.T), fmt.Sprint(c.typeTag(ty))))
 	case "unbox":
 		argN(2)
 		v := sc.eval(e.Args[0])
-		ty, _ := sc.typeByName(e.Args[1].String())
+		ty, _ := sc.typeByName(typeArgText(e.Args[1]))
 		return Val{T: c.unbox(ty, v.T), Ty: ty}
 	case "fresh":
 		// fresh(p): p was allocated during this call
